@@ -26,6 +26,68 @@ int main(int argc, char** argv) {
   std::string mode = opt_str("mode", "plain");
   std::string dir = g_args.faildir + "/vfsfiles_" + std::to_string(getpid());
   mkdir(dir.c_str(), 0755);
+  if (mode == "dirs") {
+    // Buffers mounted under paths with directories, several of them sharing a base name.  Entries are keyed by the exact path; what the
+    // implementation does for a path that is NOT exactly present (legacy base-name fallback) is not part of the property and is never
+    // asserted: deletes are issued only for exactly-present paths, or for paths whose base name is present nowhere.
+    static const char* nm[] = {"vx.bin", "d1/vx.bin", "d2/vx.bin", "vy.bin", "d1/vy.bin", "d1/sub/vx.bin", "vz.bin", "d2/sub/vz.bin"};
+    const int N = 8;
+    auto base = [](const std::string& p) { size_t i = p.find_last_of('/'); return i == std::string::npos ? p : p.substr(i + 1); };
+    for (uint64_t s = g_args.seed0; s < g_args.seed0 + g_args.n; s++) {
+      begin_case(s);
+      Rng r(s);
+      std::map<std::string, std::string> model;
+      mjVFS vfs; mj_defaultVFS(&vfs);
+      int nops = r.range(5, 40);
+      uint64_t sig = fnv_str(mode);
+      g_scenario = "dirs:";
+      for (int k = 0; k < nops; k++) {
+        int op = r.below(100); int ni = r.below(N); std::string c = content(r);
+        if (g_args.drop.count(k)) continue;
+        std::string name = nm[ni];
+        bool present = model.count(name) > 0;
+        bool base_anywhere = false; for (auto& kv : model) if (base(kv.first) == base(name)) base_anywhere = true;
+        const char* opn = op < 35 ? "addbuf" : op < 60 ? "del" : op < 72 ? "hasbuf" : op < 97 ? "read" : "reset";
+        char b[80]; snprintf(b, sizeof b, " %s(%s)", opn, name.c_str()); if (g_scenario.size() < 1300) g_scenario += b;
+        sig = fnv(&op, sizeof op, fnv(&ni, sizeof ni, sig));
+        if (op < 35) {
+          int rc = mj_addBufferVFS(&vfs, name.c_str(), c.data(), (int)c.size());
+          if (present && rc != 2) violation("repeated-add", "adding existing path %s returned %d instead of the repeated-name code 2", name.c_str(), rc);
+          if (!present && rc != 0) violation("phantom-entry", "adding path %s (not present; other entries: %zu) returned %d", name.c_str(), model.size(), rc);
+          if (rc == 0) model[name] = c;
+          count("adds");
+        } else if (op < 60) {
+          if (!present && base_anywhere) continue;          // outcome depends on the legacy fallback: not issued
+          int rc = mj_deleteFileVFS(&vfs, name.c_str());
+          if (present && rc != 0) violation("delete-failed", "deleting present path %s returned %d", name.c_str(), rc);
+          if (!present && rc != -1) violation("delete-absent", "deleting path %s, whose base name is present nowhere, returned %d", name.c_str(), rc);
+          if (present) model.erase(name);
+          count("deletes");
+        } else if (op < 72) {
+          int rc = mj_containsBufferVFS(&vfs, name.c_str());
+          if (present && rc != 1) violation("lost-file", "mj_containsBufferVFS(%s)=%d for a present path", name.c_str(), rc);
+          if (!present && rc != 0) violation("phantom-entry", "mj_containsBufferVFS(%s)=%d for a path that is not present", name.c_str(), rc);
+        } else if (op < 97) {
+          if (!present) continue;
+          char err[300] = ""; mjResource* res = nullptr;
+          bool raised = ND_GUARD({ res = mju_openResource("", name.c_str(), &vfs, err, sizeof err); });
+          if (raised || !res) violation("lost-file", "present path %s cannot be opened: %s", name.c_str(), raised ? g_lasterr : err);
+          const void* buf = nullptr; int n = mju_readResource(res, &buf);
+          const std::string& want = model[name];
+          if (n != (int)want.size() || (n > 0 && memcmp(buf, want.data(), n))) violation("wrong-bytes", "reading %s returned %d bytes that differ from the %zu bytes added under that path", name.c_str(), n, want.size());
+          mju_closeResource(res);
+          count("reads_verified");
+        } else { mj_deleteVFS(&vfs); mj_defaultVFS(&vfs); model.clear(); count("resets"); }
+        // sweep: every path of the model is present and every other path is absent (exact-key view)
+        for (int j = 0; j < N; j++) { int rc = mj_containsBufferVFS(&vfs, nm[j]); if ((rc == 1) != (model.count(nm[j]) > 0)) violation(rc == 1 ? "phantom-entry" : "lost-file", "after %s(%s): mj_containsBufferVFS(%s)=%d but the reference %s it", opn, name.c_str(), nm[j], rc, model.count(nm[j]) ? "holds" : "does not hold"); }
+      }
+      mj_deleteVFS(&vfs);
+      signature(sig); sample(g_scenario);
+      end_case();
+    }
+    print_summary();
+    return 0;
+  }
   for (uint64_t s = g_args.seed0; s < g_args.seed0 + g_args.n; s++) {
     begin_case(s);
     ND_CASE_GUARD();
